@@ -6,6 +6,7 @@ package main
 import (
 	"fmt"
 	"go/types"
+	"os"
 	"strings"
 
 	"golang.org/x/tools/go/ssa"
@@ -515,4 +516,131 @@ func (c *Ctx) dynTypes(v ssa.Value, depth int) ([]types.Type, bool) {
 		return out, true
 	}
 	return nil, false
+}
+
+// FMT-ADDR (C14): formatted text never contains a memory address. fmt prints an address for a pointer, channel,
+// function or unsafe.Pointer it cannot look into: at the top level for pointers to non-composites, below the
+// top level for every pointer; and it never calls String/Error/Format on a value it reached through an
+// unexported struct field, so below such a field even a pointer with a String method prints as an address.
+// Addresses differ between calls and runs: a result (or error text) built from one is not a function of the
+// arguments.
+func ruleFMTADDR(c *Ctx, r *Report) {
+	const rule = "FMT-ADDR"
+	r.doc(rule, "no operand of a fmt formatting call in the reachable library code prints as a memory address: not a pointer/chan/func/unsafe.Pointer that fmt cannot render through a String/Error/Format method (pointers to structs, arrays, slices and maps are looked into at the top level only), and no such value — nor an interface that may hold one — below an unexported struct field, where fmt does not call methods; %p never")
+	roots := append(c.rootsC01(), c.rootsC13()...)
+	reach := c.reachFrom(roots)
+	n := 0
+	for _, fn := range sortedFuncs(reach) {
+		if !inLib(fn) {
+			continue
+		}
+		for _, b := range fn.Blocks {
+			for _, in := range b.Instrs {
+				call, ok := in.(ssa.CallInstruction)
+				if !ok {
+					continue
+				}
+				callee := call.Common().StaticCallee()
+				if callee == nil || !strings.HasPrefix(calleeFullName(call), "fmt.") || !callee.Signature.Variadic() {
+					continue
+				}
+				args := call.Common().Args
+				ops, isLit := c.sliceLiteral(args[len(args)-1], nil)
+				if os.Getenv("LUCDBG") != "" {
+					fmt.Fprintln(os.Stderr, "FMT-ADDR call", fnName(fn), calleeFullName(call), len(args), isLit, len(ops))
+				}
+				if !isLit {
+					continue
+				}
+				var verbs []fmtVerb
+				if strings.HasSuffix(callee.Name(), "f") && len(args) >= 2 {
+					if k, isConst := c.resolve(args[len(args)-2], nil).(*ssa.Const); isConst {
+						if fs, isStr := constStringVal(k); isStr {
+							verbs = parseFormat(fs).Verbs
+						}
+					}
+				}
+				for i, op := range ops {
+					var t types.Type
+					if mi, isBox := op.(*ssa.MakeInterface); isBox {
+						t = mi.X.Type()
+					} else if rv := c.resolve(op, nil); rv != nil && !types.IsInterface(rv.Type()) {
+						t = rv.Type()
+					} else {
+						continue
+					}
+					n++
+					key := fmt.Sprintf("%s|%s|operand%d", fnName(fn), callee.Name(), i)
+					if i < len(verbs) && verbs[i].Verb == 'p' {
+						r.bad(rule, key, c.instrPos(in), fmt.Sprintf("%s formats operand %d (%s) with %%p: the text contains an address, which differs from call to call", fnName(fn), i, typeStr(t)))
+						continue
+					}
+					if i < len(verbs) && verbs[i].Verb == 'T' {
+						r.ok(rule, key, c.instrPos(in), "%T prints the type only")
+						continue
+					}
+					if why := fmtPrintsAddress(t, 0, true, map[types.Type]bool{}); why != "" {
+						r.bad(rule, key, c.instrPos(in), fmt.Sprintf("%s formats operand %d of type %s: %s — the text contains an address, which differs from call to call", fnName(fn), i, typeStr(t), why))
+					} else {
+						r.ok(rule, key, c.instrPos(in), "operand of type "+typeStr(t)+" prints through values and methods only")
+					}
+				}
+			}
+		}
+	}
+	r.floor(rule, "boxed operands of fmt calls", n, 20)
+}
+
+// fmtPrintsAddress: why a value of static type t, at the given depth below the operand and reached through
+// exported fields only (methods) or not, may print as an address; "" if it cannot.
+func fmtPrintsAddress(t types.Type, depth int, methods bool, seen map[types.Type]bool) string {
+	if seen[t] {
+		return ""
+	}
+	seen[t] = true
+	defer delete(seen, t)
+	if methods && (hasMethod(t, "Format") || hasMethod(t, "String") || hasMethod(t, "Error")) {
+		return ""
+	}
+	switch u := t.Underlying().(type) {
+	case *types.Basic:
+		if u.Kind() == types.UnsafePointer {
+			return "an unsafe.Pointer prints as an address"
+		}
+		return ""
+	case *types.Pointer:
+		if depth == 0 {
+			switch u.Elem().Underlying().(type) {
+			case *types.Struct, *types.Array, *types.Slice, *types.Map:
+				return fmtPrintsAddress(u.Elem(), 1, methods, seen)
+			}
+		}
+		if !methods {
+			return "a " + typeStr(t) + " below an unexported field prints as an address (fmt calls no methods there)"
+		}
+		return "a " + typeStr(t) + " without a String/Error/Format method prints as an address"
+	case *types.Chan, *types.Signature:
+		return "a " + typeStr(t) + " prints as an address"
+	case *types.Struct:
+		for i := 0; i < u.NumFields(); i++ {
+			f := u.Field(i)
+			if why := fmtPrintsAddress(f.Type(), depth+1, methods && f.Exported(), seen); why != "" {
+				return "field " + f.Name() + ": " + why
+			}
+		}
+	case *types.Array:
+		return fmtPrintsAddress(u.Elem(), depth+1, methods, seen)
+	case *types.Slice:
+		return fmtPrintsAddress(u.Elem(), depth+1, methods, seen)
+	case *types.Map:
+		if why := fmtPrintsAddress(u.Key(), depth+1, methods, seen); why != "" {
+			return why
+		}
+		return fmtPrintsAddress(u.Elem(), depth+1, methods, seen)
+	case *types.Interface:
+		if !methods {
+			return "an interface value below an unexported field is printed without its methods: a pointer held in it prints as an address"
+		}
+	}
+	return ""
 }
